@@ -74,15 +74,13 @@ func (c *Cursor) Last() (key []byte, value []byte) {
 
 	// If this is an empty page (calling Delete may result in empty pages)
 	// we call prev to find the last page that is not empty
-	for len(c.stack) > 1 && c.stack[len(c.stack)-1].count() == 0 {
-		c.prev()
+	var k, v []byte
+	var flags uint32
+	if len(c.stack) > 1 && c.stack[len(c.stack)-1].count() == 0 {
+		k, v, flags = c.prev()
+	} else {
+		k, v, flags = c.keyValue()
 	}
-
-	if len(c.stack) == 0 {
-		return nil, nil
-	}
-
-	k, v, flags := c.keyValue()
 	if (flags & uint32(common.BucketLeafFlag)) != 0 {
 		return k, nil
 	}
@@ -249,6 +247,7 @@ func (c *Cursor) next() (key []byte, value []byte, flags uint32) {
 // prev moves the cursor to the previous item in the bucket and returns its key and value.
 // If the cursor is at the beginning of the bucket then a nil key and value are returned.
 func (c *Cursor) prev() (key []byte, value []byte, flags uint32) {
+retry:
 	// Attempt to move back one element until we're successful.
 	// Move up the stack as we hit the beginning of each page in our stack.
 	for i := len(c.stack) - 1; i >= 0; i-- {
@@ -276,6 +275,12 @@ func (c *Cursor) prev() (key []byte, value []byte, flags uint32) {
 
 	// Move down the stack to find the last element of the last leaf under this branch.
 	c.last()
+
+	// If this is an empty page (calling Delete may result in empty pages)
+	// then keep moving backwards, as next() does in the other direction.
+	if len(c.stack) > 1 && c.stack[len(c.stack)-1].count() == 0 {
+		goto retry
+	}
 	return c.keyValue()
 }
 
